@@ -74,6 +74,15 @@ func (x *Exec) atLoopHeader(st *State, fr *Frame, h *ssa.BasicBlock, ord int, pr
 			cur := env.eval(spec.Decreases.E)
 			x.oblige(st, "dec", key, mkAnd(mkCmp("<", x.toInt(st, cur), al.decVal), mkCmp("<=", "0", al.decVal)), firstPos(h))
 		}
+		// per-iteration frame: heaps with a declared footprint changed only inside it
+		for _, name := range sortedKeys(al.framed) {
+			fp := al.framed[name]
+			cur := st.heaps[name]
+			if cur == fp.start {
+				continue
+			}
+			x.oblige(st, "loop-frame", key+":"+name, x.frameFormula(name, cur, fp.start, fp, al.entry.alloc), firstPos(h))
+		}
 		return false
 	}
 	// entry edge
@@ -84,8 +93,27 @@ func (x *Exec) atLoopHeader(st *State, fr *Frame, h *ssa.BasicBlock, ord int, pr
 	}
 	ws := newWriteSet()
 	x.scanBlocks(st, fr, fr.fn, li.body[h], ws, 0)
+	// declared footprints are evaluated in the loop-entry state
+	framed := map[string]*footprint{}
+	if len(spec.Assigns) > 0 {
+		for name := range ws.heaps {
+			if fp := x.footprintFor(env, spec.Assigns, name); fp != nil {
+				framed[name] = fp
+			}
+		}
+	}
 	x.havocWriteSet(st, ws, key)
-	al := &activeLoop{header: h, entry: entry, spec: spec}
+	for _, name := range sortedKeys(framed) {
+		fp := framed[name]
+		pre := entry.heaps[name]
+		if pre == "" {
+			pre = x.heapTerm(entry, name, ws.heaps[name])
+		}
+		// arbitrary earlier iterations changed the heap only inside the footprint
+		st.assume(x.frameFormula(name, st.heaps[name], pre, fp, entry.alloc))
+		fp.start = st.heaps[name]
+	}
+	al := &activeLoop{header: h, entry: entry, spec: spec, framed: framed}
 	fr.active[h] = al
 	env2 := x.frameEnv(st, fr, nil)
 	env2.pre = entry
